@@ -17,6 +17,11 @@ CHECKS = {
          "Drives the real SQLite client with PRNG sequences over all ~70 interface methods (incl. the ones no IMAP script reaches), compares every return value and, after every write transaction, a dump of the whole database through its getters with a small relational model; transactions aborted at PRNG-chosen points must leave no trace; every list-taking method is called with 0..2500 arguments. Held on the sequences explored.",
          "Trusts the relational model (written from the interface's contract; methods are only called where the contract is defined, e.g. DeleteMessages for messages in no mailbox) and the getters used for the dump (each getter is itself cross-checked against the model individually).",
          "DESIGN.md §4 C08"),
+ "C09": ("exploration",
+         "round-trip vs map model at cipher-block-edge sizes; corruption sweep oracle (error or exact bytes); porcupine linearizability check of recorded concurrent Get/Set/Delete histories with unique self-describing values; Go race detector on the same workload",
+         "(a) Set/Get/Delete/List of the real on-disk store against a map model for lengths at and around the 256 KiB compress-then-encrypt block edges (lengths computed with the same LZ4 options), four compressibility classes, overwrite/delete; (b) truncation at every probed offset, bit flips, block drop/duplicate/swap and a wrong passphrase must give an error or exactly the stored bytes; (c) 4-12 goroutines on 1-3 IDs through the WriteControlledStore: every returned value must be a complete written value and each per-ID history must be linearizable (porcupine, register-with-delete), with a failpoint sleep between truncate and the first block; the same workload runs under the race detector. Held on the cases explored.",
+         "Trusts porcupine v1.3.0, the LZ4 length computation and the harness clock (one monotonic source); a porcupine timeout is reported as inconclusive; the sweep probes every offset only for small files (boundary neighbourhoods + PRNG sample for large ones).",
+         "DESIGN.md §4 C09"),
 }
 
 ALL = ["C%02d" % i for i in range(1, 21)]
